@@ -5,6 +5,7 @@ package gosx
 
 import (
 	"fmt"
+	"go/token"
 	"go/types"
 	"os"
 	"strings"
@@ -197,17 +198,19 @@ func init() {
 			fr.i.mapRev = a[0].(bool)
 			return nil
 		},
-		"Freeze":       vxFreeze,
-		"Unfreeze":     func(fr *frame, a []value) value { fr.i.frozen = nil; return nil },
-		"Engine":       func(fr *frame, a []value) value { return true },
-		"WatchReentry": vxWatchReentry,
-		"Steps":        func(fr *frame, a []value) value { return fr.i.steps },
-		"DeepEqual":    vxDeepEqual,
-		"Reach":        vxReach,
-		"SameObject":   vxSameObject,
-		"IsNilPtr":     vxIsNilPtr,
-		"Fill":         vxFill,
-		"Dump":         vxDump,
+		"Freeze":          vxFreeze,
+		"Unfreeze":        func(fr *frame, a []value) value { fr.i.frozen = nil; return nil },
+		"Engine":          func(fr *frame, a []value) value { return true },
+		"WatchReentry":    vxWatchReentry,
+		"Steps":           func(fr *frame, a []value) value { return fr.i.steps },
+		"WatchReentryAll": vxWatchReentryAll,
+		"BytesSymLen":     vxBytesSymLen,
+		"DeepEqual":       vxDeepEqual,
+		"Reach":           vxReach,
+		"SameObject":      vxSameObject,
+		"IsNilPtr":        vxIsNilPtr,
+		"Fill":            vxFill,
+		"Dump":            vxDump,
 	}
 }
 
@@ -570,4 +573,82 @@ func (i *interpreter) liftedCall(fr *frame, fn *ssa.Function, args []value) valu
 	i.steps = -(1 << 40) // row-wise evaluation of a pure callee does not count against the path budget
 	defer func() { i.lifting--; i.steps = saved }()
 	return callSSAraw(i, fr, fn, args)
+}
+
+// vxWatchReentryAll(recvType, field, id): for every method whose receiver is a
+// pointer to the named struct type: whenever the method is entered while another
+// activation of the same method is live, the int field of the receiver must be
+// strictly greater than it was when that outer activation was entered.
+func vxWatchReentryAll(fr *frame, a []value) value {
+	i := fr.i
+	recvName, field, id := i.concString(a[0]), i.concString(a[1]), i.concString(a[2])
+	live := map[*ssa.Function][]value{}
+	fieldIdx := map[*ssa.Function]int{}
+	watched := func(f *frame) (int, bool) {
+		if k, ok := fieldIdx[f.fn]; ok {
+			return k, k >= 0
+		}
+		k := -1
+		if len(f.fn.Params) > 0 && f.fn.Signature.Recv() != nil {
+			if pt, ok := f.fn.Params[0].Type().Underlying().(*types.Pointer); ok {
+				if nt, ok := pt.Elem().(*types.Named); ok && nt.Obj().Name() == recvName {
+					if st, ok := nt.Underlying().(*types.Struct); ok {
+						for j := 0; j < st.NumFields(); j++ {
+							if st.Field(j).Name() == field {
+								k = j
+							}
+						}
+					}
+				}
+			}
+		}
+		fieldIdx[f.fn] = k
+		return k, k >= 0
+	}
+	i.onEnter = func(f *frame) {
+		k, ok := watched(f)
+		if !ok {
+			return
+		}
+		recv, ok := f.env[f.fn.Params[0]].(*value)
+		if !ok || recv == nil {
+			return
+		}
+		cur := (*recv).(structure)[k]
+		if debugOn {
+			fmt.Fprintf(os.Stderr, "enter %s live=%d\n", f.fn.Name(), len(live[f.fn]))
+		}
+		if st := live[f.fn]; len(st) > 0 {
+			prev := st[len(st)-1]
+			gt := i.binop(token.GTR, nil, cur, prev)
+			i.pendingMsg = &noteRec{format: "%s", args: []value{iface{t: types.Typ[types.String], v: f.fn.Name() + " re-entered while active without increasing " + field}}}
+			i.assert(id, gt, "")
+			i.pendingMsg = nil
+			i.ghost["reentries"]++
+		}
+		live[f.fn] = append(live[f.fn], cur)
+	}
+	i.onLeave = func(f *frame) {
+		if _, ok := watched(f); !ok {
+			return
+		}
+		if st := live[f.fn]; len(st) > 0 {
+			live[f.fn] = st[:len(st)-1]
+		}
+	}
+	return nil
+}
+
+// symLenSlice is a byte slice whose LENGTH is symbolic and whose content is never
+// materialised: len() is supported; any element access ends the path.
+type symLenSlice struct {
+	n *Term // 64-bit
+}
+
+func vxBytesSymLen(fr *frame, a []value) value {
+	i := fr.i
+	max := i.concInt(a[0])
+	v := i.ts.Var(32)
+	i.assume(lower(types.Bool, i.ts.Cmp(OpUle, v, i.ts.Const(32, uint64(max)))))
+	return &symLenSlice{n: i.ts.ZExt(v, 64)}
 }
